@@ -13,6 +13,7 @@ GROUPS = {
     "shell": {"service", "command", "decode"},
     "files": {"device_path", "local_path", "st_mode", "mtime", "progress_callback", "stream"},
     "usb": {"serial", "port_path", "setting_matcher", "device_matcher", "usb_info"},
+    "net": {"host", "port", "banner", "transport", "default_transport_timeout_s"},
 }
 
 
